@@ -611,7 +611,7 @@ def scope_printed(root, texts):
 
 def scope_stream(run, rng, thorough):
     import time
-    n = 1500 if thorough else 300
+    n = 1500 if thorough else 260
     docs = [c['doc'] for c in load_corpus('scope')] + [gen_scope_node(rng, 0, [0], False) for _ in range(n)]
     cases = [{'html': scope_html(d)} for d in docs]
     t0 = time.time()
@@ -739,7 +739,7 @@ def judge_toc(case, o):
 
 def toc_stream(run, rng, thorough):
     import time
-    cases = [gen_toc(rng) for _ in range(400 if thorough else 80)]
+    cases = [gen_toc(rng) for _ in range(400 if thorough else 70)]
     t0 = time.time()
     outs = common.run_impl('impl_c15', 'render_toc', cases, limit=120, chunksize=1)
     outcomes = {'ok': 0, 'not-converged': 0, 'wrong': 0, 'malformed': 0}
@@ -804,7 +804,7 @@ def check(run):
                          + ('exhaustively' if thorough else '(-50..130 dense, boundaries, 120 random)')
                          + ', render_value and render_marker called directly; strings compared with the model and the spec')
     # ---- stream b: random @counter-style rules through the real parser + validators; anonymous styles; raw dicts
-    ncss = 1200 if thorough else 200
+    ncss = 1200 if thorough else 180
     cases = [{'css': c['css'], 'use_ua': True, 'queries': c['queries'], 'odd': False} for c in load_corpus('css')]
     cases += [gen_css_case(rng, odd=(i % 3 == 2)) for i in range(ncss)]
     cases += [gen_anon_case(rng) for _ in range(ncss // 10)]
